@@ -19,8 +19,8 @@ import (
 	"github.com/filecoin-project/go-bitfield"
 	"github.com/filecoin-project/go-f3/certs"
 	"github.com/filecoin-project/go-f3/gpbft"
+	"github.com/filecoin-project/go-f3/internal/verifh/lib/bsig"
 	"github.com/filecoin-project/go-f3/internal/verifh/lib/vh"
-	"github.com/filecoin-project/go-f3/sim/signing"
 )
 
 const networkName = gpbft.NetworkName("verif-net")
@@ -99,7 +99,7 @@ type net struct {
 	rng      *vh.Rng
 	out      *vh.Out
 	u        *universe
-	sig      *signing.FakeBackend
+	sig      *bsig.Backend // FakeBackend whose aggregates depend on the complete committee key list (as BLS/BDN)
 	table    *gpbft.PowerTable
 	agg      gpbft.Aggregate
 	supp     gpbft.SupplementalData
@@ -599,7 +599,7 @@ func (n *net) byzAct() {
 // ---------- one run ----------
 
 func runOnce(out *vh.Out, rng *vh.Rng, runNo int, mode string) {
-	n := &net{rng: rng, out: out, sig: signing.NewFakeBackend(), votes: map[string]map[gpbft.ActorID][]byte{},
+	n := &net{rng: rng, out: out, sig: bsig.New(), votes: map[string]map[gpbft.ActorID][]byte{},
 		payloads: map[string]gpbft.Payload{}, byzSlots: map[string]bool{}, commitVal: map[uint64]*gpbft.ECChain{}}
 	n.u = &universe{tips: map[string]int{}, byID: map[int]*gpbft.TipSet{}}
 	N := 3 + rng.Intn(5)
